@@ -16,6 +16,7 @@ MUTANTS = [
     Mutant('defaults_hoisted', D, edit_node('_filter_ignore_accept', stmt_containing("operator = '=='"), to_pass, 0), 'R1', 'operator default not reset per filter'),
     Mutant('limit_25', D, edit_node('_convert_data_item', lambda n, seg: isinstance(n, ast.Compare) and seg == 'len(x) > 24', lambda seg: 'len(x) > 25'), 'R2', 'length limit off by one'),
     Mutant('dot_not_null', D, edit_node('_convert_data_item', lambda n, seg: isinstance(n, ast.Constant) and seg == "'.'", lambda seg: "'..'"), 'R2', 'dot is not NULL'),
+    Mutant('fortran_prefix_match', D, edit_node('convert_fortran_number', lambda n, seg: isinstance(n, ast.Attribute) and seg == 're.fullmatch', lambda seg: 're.match'), 'R10', 'a+b pattern matched on a prefix (the defect repaired by 51731a2)'),
     Mutant('only_upper_D', D, edit_node('convert_fortran_number', lambda n, seg: isinstance(n, ast.Call) and seg.endswith('.replace("d", "e")'), lambda seg: seg[:-len('.replace("d", "e")')]), 'R2', 'lower case d exponent'),
     Mutant('no_update_input', 'src/pharmpy/model/external/nonmem/model.py', edit_node('Model.update_source', stmt_containing('cs = update_input(cs, model)'), to_pass), 'R3', '$INPUT not regenerated'),
     Mutant('csv_with_index', 'src/pharmpy/modeling/write_csv.py', edit_node('write_csv', lambda n, seg: isinstance(n, ast.keyword) and n.arg == 'index', lambda seg: 'index=True'), 'R3', 'index column written'),
